@@ -365,4 +365,61 @@ def outcomeCode : Outcome → Nat
   | .printpin false => 7
   | .pinauth r => 8 + 2 * (if r.auth then 1 else 0) + (if r.exhausted then 1 else 0)
 
+/-! ### `check_pin_trust` on the raw cookie value, with the clock as a parameter -/
+
+/-- `int(ts_str)`: opaque — Python's `int()` accepts surrounding white space, a sign, `_` separators
+and any Unicode decimal digits; the theorems hold for every such function, the driver uses
+`decimalInt` (what the cookies of the rig and of `pin_auth` itself contain) -/
+abbrev IntOf := List Char → Option Int
+
+/-- `val.split("|", 1)` for a value that contains `|`: (timestamp text, hash text) -/
+def splitBar (val : List Char) : List Char × List Char :=
+  (val.takeWhile (· != '|'), (val.dropWhile (· != '|')).drop 1)
+
+/-- `check_pin_trust(environ)`: `pinHash` = `hash_pin(self.pin)` (`none` = `self.pin is None`),
+`cookie` = `parse_cookie(environ).get(self.pin_cookie_name)`, `now` = `floor(time.time())`.
+For an integer timestamp `ts`, `(time.time() - PIN_TIME) < ts` is `floor(time.time()) - PIN_TIME < ts`. -/
+def checkPinTrustRaw (intOf : IntOf) (pinTime : Int) (pinHash : Option (List Char))
+    (cookie : Option (List Char)) (now : Int) : Trust :=
+  match pinHash with
+  | none => .yes
+  | some hp =>
+    match cookie with
+    | none => .no
+    | some val =>
+      if val.isEmpty || !val.contains '|' then .no
+      else
+        match intOf (splitBar val).1 with
+        | none => .no
+        | some ts =>
+          if (splitBar val).2 != hp then .bad
+          else if now - pinTime < ts then .yes else .no
+
+/-- the abstract class of a raw cookie (the five cases `checkPinTrust` distinguishes) -/
+def classifyCookie (intOf : IntOf) (pinTime : Int) (hp : List Char) (cookie : Option (List Char))
+    (now : Int) : Cookie :=
+  match cookie with
+  | none => .absent
+  | some val =>
+    if val.isEmpty || !val.contains '|' then .malformed
+    else
+      match intOf (splitBar val).1 with
+      | none => .malformed
+      | some ts =>
+        if (splitBar val).2 != hp then .wrongHash
+        else if now - pinTime < ts then .valid else .expired
+
+/-- a non-empty run of ASCII digits read as a decimal number -/
+def decimalInt : IntOf := fun s =>
+  if !s.isEmpty && s.all (fun c => '0' ≤ c && c ≤ '9') then
+    some (Int.ofNat (s.foldl (fun a c => 10 * a + (c.toNat - 48)) 0))
+  else none
+
+/-- the cookie `pin_auth` issues at time `t0`: `f"{int(time.time())}|{hash_pin(pin)}"` -/
+def issuedCookie (render : Int → List Char) (t0 : Int) (hp : List Char) : List Char :=
+  render t0 ++ '|' :: hp
+
+/-- `_fail_pin_auth`'s penalty delay in tenths of a second: `5.0 if count > 5 else 0.5` -/
+def failDelayTenths (count : UInt8) : Nat := if count > 5 then 50 else 5
+
 end Wz.Dbg
